@@ -546,6 +546,30 @@ def r6(ctx: Ctx):
                node=node)
     else:
       ctx.ok(rule, fi, f'path [{desc}]: reads {unparse(node)} within [i, stop), advances by its width', node)
+  # giving up on an element: only after the single-element read form was tried
+  sel = [x for x in tr.body if isinstance(x, ast.If) and isinstance(x.test, ast.Compare)
+         and any(isinstance(y, ast.Subscript) and is_self_attr(y.value, 'data') for y in ast.walk(x))]
+  if len(sel) == 1 and tr.handlers:
+    s_left = unparse(sel[0].test.left)
+    for h in tr.handlers:
+      for x in ast.walk(h):
+        if isinstance(x, ast.If) and any(isinstance(y, ast.Raise) and y.exc is None for y in x.body):
+          n += 1
+          t = x.test
+          ok_ = isinstance(t, ast.Compare) and len(t.ops) == 1 and unparse(t.left) == s_left and isinstance(
+              t.comparators[0], ast.Constant) and (
+                  (isinstance(t.ops[0], ast.Eq) and t.comparators[0].value == 1)
+                  or (isinstance(t.ops[0], ast.LtE) and t.comparators[0].value == 1)
+                  or (isinstance(t.ops[0], ast.Lt) and t.comparators[0].value == 2))
+          if ok_:
+            ctx.ok(rule, fi, f'gives up only when `{s_left}` selects the single-element read', x)
+          else:
+            ctx.fail(rule, fi, f'_RangeIterator.__next__: give up only when {s_left} == 1',
+                     f'the handler skips the element and re-raises under `{unparse(t)}`, but'
+                     f' the single-element read `data[i]` is selected by `{unparse(sel[0].test)}`:'
+                     ' a failed SLICE read of a one-element window (index-only'
+                     ' source, last element of a range) is given up without'
+                     ' ever trying data[i] — the element is lost', node=x)
   ctx.floor(rule, 2, n)
 
 
@@ -754,6 +778,9 @@ VARIANTS = [
     OK('seq-idxs-accumulate-default-op', 'utils/iter_utils.py',
        '    self._seq_idxs.extend(itt.accumulate(map(len, self._sequences), op.add))',
        '    self._seq_idxs.extend(itt.accumulate(len(s) for s in self._sequences))'),
+    B('range-gives-up-on-clamped-size', 'utils/iter_utils.py',
+      '        if self._batch_size == 1:\n          self.i += self._batch_size\n          raise',
+      '        if batch_size == 1:\n          self.i += batch_size\n          raise', 'R-C09-6'),
     B('range-read-unclamped', 'utils/iter_utils.py',
       '          batch_size = min(self.i + self._batch_size, self.stop) - self.i\n', '          pass\n',
       'R-C09-6'),
